@@ -94,6 +94,7 @@ type recipe struct {
 	dropItem    map[base.BlockItemType]bool
 	mapOtherNet bool
 	swapWrite   bool
+	notFed      map[base.BlockItemType]bool // items of the map the caller does not hand to WriteItem
 }
 
 var itemOrder = []base.BlockItemType{
@@ -376,6 +377,7 @@ const (
 	kOpsGarbled     = 71
 	kStsTreeGarbled = 72
 	kMapOtherNet    = 80
+	kItemNotFed     = 85 // one item of the map is never written to the importer
 	// not tampers: the block is produced by the repository's block Writer (isaacblock.NewWriter) on top of LocalFSWriter
 	kWriter           = 90
 	kWriterNotInState = 91 // one more operation that failed processing (SetProcessResult instate=false)
@@ -394,7 +396,7 @@ var kindName = map[int]string{
 	kAvpOtherNet: "avp-invalid", kVpsSwapped: "vps-written-in-swapped-order(harmless)", kVpsGarbled: "vps-garbled",
 	60: "bad-checksum-proposal", 61: "bad-checksum-operations", 62: "bad-checksum-operations_tree", 63: "bad-checksum-states",
 	64: "bad-checksum-states_tree", 65: "bad-checksum-voteproofs", kStsGarbled: "sts-garbled", kOpsGarbled: "ops-garbled",
-	kStsTreeGarbled: "ststree-garbled", kMapOtherNet: "map-signed-other-network",
+	kStsTreeGarbled: "ststree-garbled", kMapOtherNet: "map-signed-other-network", kItemNotFed: "item-not-written-to-importer",
 	kWriter: "genuine(block-writer)", kWriterNotInState: "genuine(block-writer,failed-operation)",
 }
 
@@ -405,7 +407,7 @@ var allKinds = []int{
 	kOpsForeignTreeConsistent, kOpsNotInStateNode, kOpsTreeCorruptLeaf,
 	kManifestProposalRandom, kPrOtherHeight, kPrOtherNet, kPrGarbled,
 	kVpsOtherHeight, kAvpOtherRound, kAvpOtherBlock, kIvpOtherNet, kAvpOtherNet, kVpsSwapped, kVpsGarbled,
-	60, 61, 62, 63, 64, 65, kStsGarbled, kOpsGarbled, kStsTreeGarbled, kMapOtherNet,
+	60, 61, 62, 63, 64, 65, kStsGarbled, kOpsGarbled, kStsTreeGarbled, kMapOtherNet, kItemNotFed,
 }
 
 func group(k int) int { return k / 20 * 20 } // 0 states, 20 ops, 40 proposal(+vps 50..), 60 checksums...
@@ -561,6 +563,8 @@ func (g *gen) tamper(rc *recipe, want []int) map[int]bool {
 			rc.garble[base.BlockItemStatesTree] = true
 		case kMapOtherNet:
 			rc.mapOtherNet = true
+		case kItemNotFed:
+			// decided in runCase once the map is known
 		default:
 			continue
 		}
@@ -926,10 +930,12 @@ type observed struct {
 	Sub            [4]bool `json:"validator_sub"` // proposal, operations, states, voteproofs
 	ValidImp       *bool   `json:"validator_on_imported,omitempty"`
 	AvpForManifest bool    `json:"avp_for_manifest"`
+	OpsAllValid    bool    `json:"ops_all_valid"`
+	StsAllValid    bool    `json:"sts_all_valid"`
 	errs           []string
 }
 
-func (g *gen) runImporter(srcroot, dstroot string, m base.BlockMap, height base.Height, ob *observed) {
+func (g *gen) runImporter(srcroot, dstroot string, m base.BlockMap, height base.Height, notFed map[base.BlockItemType]bool, ob *observed) {
 	e := g.e
 	must(os.MkdirAll(dstroot, 0o700))
 	bwdb := e.bwdb(height)
@@ -948,6 +954,9 @@ func (g *gen) runImporter(srcroot, dstroot string, m base.BlockMap, height base.
 			ob.Items[i] = true
 
 			continue
+		}
+		if notFed[t] {
+			continue // the caller never hands this item over: ob.Items[i] stays false
 		}
 		_, found, err := readers.Item(height, t, func(ir isaac.BlockItemReader) error {
 			return im.WriteItem(t, ir)
@@ -1035,6 +1044,17 @@ func (g *gen) runSubChecks(root string, height base.Height, m base.BlockMap, ob 
 	ob.Sub[0] = pr != nil && pr.IsValid(e.networkID) == nil && base.IsValidProposalWithManifest(pr, mf) == nil
 	ob.Sub[1] = isaacblock.IsValidOperationsOfBlock(opstree, ops, mf, e.networkID, nil) == nil
 	ob.Sub[2] = isaacblock.IsValidStatesOfBlock(ststree, sts, mf, e.networkID, nil) == nil
+	ob.OpsAllValid, ob.StsAllValid = true, true
+	for i := range ops {
+		if ops[i].IsValid(e.networkID) != nil {
+			ob.OpsAllValid = false
+		}
+	}
+	for i := range sts {
+		if sts[i].IsValid(e.networkID) != nil {
+			ob.StsAllValid = false
+		}
+	}
 	ob.Sub[3] = isaacblock.IsValidVoteproofsFromLocalFSVerif(e.networkID, vps, mf) == nil
 	if avp, ok := vps[1].(base.ACCEPTVoteproof); ok && avp.BallotMajority() != nil {
 		ob.AvpForManifest = avp.BallotMajority().NewBlock().Equal(mf.Hash()) && avp.Point().Height() == mf.Height() &&
@@ -1129,10 +1149,8 @@ func (rc *recipe) coq(m base.BlockMap) string {
 	}
 	pr := fmt.Sprintf("(mkPr %s %s %s)", vh.Bool(rc.prValid), vh.Z(int64(rc.prHeight)), in.hash(rc.pr.Fact().Hash()))
 
-	mapValid := rc.mapValid(m)
-
 	return fmt.Sprintf("(mkBlk %s %s %s %s %s %s %s %s %s %s %s %s)",
-		vh.Bool(mapValid), vh.Z(int64(rc.point.Height())), in.hash(rc.manifest.Hash()), in.hash(rc.mProposal),
+		vh.Bool(!rc.mapOtherNet), vh.Z(int64(rc.point.Height())), in.hash(rc.manifest.Hash()), in.hash(rc.mProposal),
 		in.opt(rc.mOpsRoot), in.opt(rc.mStsRoot),
 		it(base.BlockItemProposal, pr),
 		it(base.BlockItemOperations, vh.List(ops)),
@@ -1159,6 +1177,7 @@ func (ob *observed) coq() string {
 // ---------------------------------------------------------------- one case
 
 type spec struct {
+	Sub    uint64   `json:"sub"` // seed of the case's own random choices (round, suffrage height)
 	Height int64    `json:"height"`
 	NOps   int      `json:"nops"`
 	NSts   int      `json:"nsts"`
@@ -1167,7 +1186,25 @@ type spec struct {
 	Names  []string `json:"names,omitempty"`
 }
 
-func (g *gen) runCase(sp spec, dir string, cases *vh.Cases, res *vh.Result) {
+// caseOut: what one case contributes to result.json / cases.v (cases run in parallel, merged in order)
+type caseOut struct {
+	key        string
+	nontrivial bool
+	dists      []string
+	fails      []vh.Failure
+	term       string
+	desc       any
+	sample     any
+}
+
+func (c *caseOut) Dist(k string) { c.dists = append(c.dists, k) }
+func (c *caseOut) Fail(class, desc string, replay any) {
+	c.fails = append(c.fails, vh.Failure{Class: class, Desc: desc, Replay: replay})
+}
+
+func runCase(e *env, sp spec, dir string) *caseOut {
+	g := &gen{e: e, r: vh.NewRand(sp.Sub)}
+	res := &caseOut{}
 	src := filepath.Join(dir, "src")
 	dst := filepath.Join(dir, "dst")
 	defer os.RemoveAll(dir)
@@ -1195,13 +1232,31 @@ func (g *gen) runCase(sp spec, dir string, cases *vh.Cases, res *vh.Result) {
 	height := rc.point.Height()
 
 	ob := &observed{}
-	g.runImporter(src, dst, m, height, ob)
+	fed := make([]string, len(itemOrder))
+	for i := range fed {
+		fed[i] = "true"
+	}
+	for _, k := range rc.Kinds {
+		if k != kItemNotFed {
+			continue
+		}
+		var present []int
+		for i, t := range itemOrder {
+			if _, found := m.Item(t); found {
+				present = append(present, i)
+			}
+		}
+		i := present[g.r.Intn(len(present))]
+		rc.notFed = map[base.BlockItemType]bool{itemOrder[i]: true}
+		fed[i] = "false"
+	}
+	g.runImporter(src, dst, m, height, rc.notFed, ob)
 	var verr string
 	ob.Valid, verr = g.runValidator(src, height)
 	g.runSubChecks(src, height, m, ob)
 
 	key := fmt.Sprintf("%v/%d/%d/%d/%v", sp.Kinds, sp.Height, sp.NOps, sp.NSts, sp.Suf)
-	res.Count(key, len(sp.Kinds) > 0)
+	res.key, res.nontrivial = key, len(sp.Kinds) > 0
 	if len(sp.Kinds) == 0 {
 		res.Dist("tamper:none")
 	}
@@ -1223,6 +1278,13 @@ func (g *gen) runCase(sp spec, dir string, cases *vh.Cases, res *vh.Result) {
 				for i, cls := range []string{"import-proposal-vs-manifest", "import-operations-vs-tree-vs-manifest", "import-states-vs-tree-vs-manifest", "import-voteproofs-vs-manifest"} {
 					if !ob.Sub[i] {
 						explained = true
+						// the known classes are about consistency with the trees / the manifest, not about storing invalid objects
+						if i == 1 && !ob.OpsAllValid {
+							cls = "import-invalid-operation-stored"
+						}
+						if i == 2 && !ob.StsAllValid {
+							cls = "import-invalid-state-stored"
+						}
 						res.Fail(cls, fmt.Sprintf("importer stored a block the validator rejects: %s [%s]", vierr, strings.Join(sp.Names, ",")), sp)
 					}
 				}
@@ -1237,6 +1299,20 @@ func (g *gen) runCase(sp spec, dir string, cases *vh.Cases, res *vh.Result) {
 				res.Fail("import-stored-but-validator-rejects", fmt.Sprintf("%s [%s]", vierr, strings.Join(sp.Names, ",")), sp)
 			}
 		}
+		// the stored files are the ones the signed map names
+		m.Items(func(item base.BlockMapItem) bool {
+			p, gz := g.itemPath(dst, height, item.Type())
+			if _, err := os.Stat(p); err != nil {
+				res.Fail("import-stored-block-incomplete", fmt.Sprintf("Save succeeded but item %s of the block map is not stored [%s]", item.Type(), strings.Join(sp.Names, ",")), sp)
+
+				return true
+			}
+			if got := checksum(readItemFile(p, gz)); got != item.Checksum() {
+				res.Fail("import-checksum-mismatch", fmt.Sprintf("stored item %s has checksum %s, the block map says %s [%s]", item.Type(), got, item.Checksum(), strings.Join(sp.Names, ",")), sp)
+			}
+
+			return true
+		})
 		if ob.HasSub && !ob.AvpForManifest {
 			res.Fail("import-accept-majority-not-manifest", fmt.Sprintf("importer stored a block whose ACCEPT voteproof is not a majority for the manifest hash at the manifest height [%s]", strings.Join(sp.Names, ",")), sp)
 		}
@@ -1252,22 +1328,28 @@ func (g *gen) runCase(sp spec, dir string, cases *vh.Cases, res *vh.Result) {
 		}
 	}
 
-	cases.Add(vh.Tuple(rc.coq(m), ob.coq()), map[string]any{"spec": sp, "observed": ob, "validator_err": verr, "import_errs": ob.errs})
-	res.Sample(map[string]any{"spec": sp, "observed": ob})
+	res.term = vh.Tuple(rc.coq(m), vh.List(fed), ob.coq())
+	res.desc = map[string]any{"spec": sp, "observed": ob, "validator_err": verr, "import_errs": ob.errs}
+	res.sample = map[string]any{"spec": sp, "observed": ob}
+
+	return res
 }
 
 func main() {
 	o := vh.ParseFlags()
-	res := vh.NewResult("blocks written by the real LocalFSWriter (signed map, real checksums): untampered and with 1-2 semantic tampers; each imported by the real BlockImporter and validated by IsValidBlockFromLocalFS; non-trivial = at least one tamper applied")
-	g := &gen{e: newEnv(), r: vh.NewRand(o.Seed)}
-	cases := &vh.Cases{Import: "From MV Require Import C16.Model.", Type: "blk * obs", CheckFn: "check", Shard: 150}
+	res := vh.NewResult("blocks written by the real LocalFSWriter / block Writer (signed map, real checksums): untampered and with 1-2 semantic tampers; each imported by the real BlockImporter and validated by IsValidBlockFromLocalFS; non-trivial = at least one tamper applied")
+	e := newEnv()
+	r := vh.NewRand(o.Seed)
+	cases := &vh.Cases{Import: "From MV Require Import C16.Model.", Type: "blk * list bool * obs", CheckFn: "check", Shard: 150}
 	work := filepath.Join(o.Out, "c16-scratch")
 	must(os.MkdirAll(work, 0o700))
 	defer os.RemoveAll(work)
-	n := 0
+	var specs []spec
 	run := func(sp spec) {
-		n++
-		g.runCase(sp, filepath.Join(work, fmt.Sprintf("%06d", n)), cases, res)
+		if sp.Sub == 0 {
+			sp.Sub = r.U64() | 1
+		}
+		specs = append(specs, sp)
 	}
 
 	if o.Replay != "" {
@@ -1298,26 +1380,51 @@ func main() {
 		}
 	}
 
-	blocks := o.Pick(40, 1500)
+	blocks := o.Pick(20, 600)
 	for b := 0; b < blocks; b++ {
-		height := int64(g.r.Range(1, 40))
-		if g.r.Chance(1, 6) {
+		height := int64(r.Range(1, 40))
+		if r.Chance(1, 6) {
 			height = 0
 		}
-		nops, nsts := g.r.Intn(5), g.r.Intn(5)
-		suf := nsts > 0 && g.r.Chance(1, 3)
+		nops, nsts := r.Intn(5), r.Intn(5)
+		suf := nsts > 0 && r.Chance(1, 3)
 		run(spec{Height: height, NOps: nops, NSts: nsts, Suf: suf})
 		run(spec{Height: height, NOps: nops, NSts: nsts, Suf: suf, Kinds: []int{kWriter}})
-		if g.r.Chance(1, 3) {
+		if r.Chance(1, 3) {
 			run(spec{Height: height, NOps: nops, NSts: nsts, Suf: suf, Kinds: []int{kWriterNotInState}})
 		}
 		for t := 0; t < 10; t++ {
-			kinds := []int{allKinds[g.r.Intn(len(allKinds))]}
-			if g.r.Chance(1, 4) {
-				kinds = append(kinds, allKinds[g.r.Intn(len(allKinds))])
+			kinds := []int{allKinds[r.Intn(len(allKinds))]}
+			if r.Chance(1, 4) {
+				kinds = append(kinds, allKinds[r.Intn(len(allKinds))])
 			}
 			run(spec{Height: height, NOps: nops, NSts: nsts, Suf: suf, Kinds: kinds})
 		}
+	}
+
+	outs := make([]*caseOut, len(specs))
+	var wg sync.WaitGroup
+	sem := make(chan struct{}, 8)
+	for i := range specs {
+		wg.Add(1)
+		sem <- struct{}{}
+		go func(i int) {
+			defer wg.Done()
+			defer func() { <-sem }()
+			outs[i] = runCase(e, specs[i], filepath.Join(work, fmt.Sprintf("%06d", i)))
+		}(i)
+	}
+	wg.Wait()
+	for _, c := range outs {
+		res.Count(c.key, c.nontrivial)
+		for _, d := range c.dists {
+			res.Dist(d)
+		}
+		for _, f := range c.fails {
+			res.Fail(f.Class, f.Desc, f.Replay)
+		}
+		cases.Add(c.term, c.desc)
+		res.Sample(c.sample)
 	}
 
 	res.ModelCases = cases.Len()
